@@ -135,6 +135,13 @@ def check_result(lines, res, msyms, pie, unreachable=False):
             return f"`{ln}`: expression names {first.name}"
         if want_sym is not None and want_sym in msyms.values() and first is not want_sym:
             return f"`{ln}`: a new symbol object was created for the module's symbol {m.group(2)}"
+        # attributes: what the operand's @VARIANT asks for on ELF x86-64 (independent of the library's table)
+        variant = m.group(3) if m.lastindex and m.lastindex >= 3 else None
+        want_attrs = {"@GOTPCREL": {"GOT", "PCREL"}, "@PLT": {"PLT"}}.get(variant)
+        if want_attrs is not None:
+            got_attrs = {a.name for a in e.attributes}
+            if got_attrs != want_attrs:
+                return f"`{ln}`: attributes {sorted(got_attrs)}, expected {sorted(want_attrs)}"
         tail = m.group(4)
         if isinstance(e, gtirb.SymAddrConst):
             addend = int(tail) if tail and re.match(r"^[+-]\d+$", tail) else 0
